@@ -275,7 +275,31 @@ def slow_reader_interleaved_scenario(sid, bigsize=300000, rounds=6, chunk=50000)
     return {"id": sid, "role": "", "steps": steps}
 
 
+def backend_backlog_scenario(sid, fillers=10, small=5200):
+    """A node that does not read: a few large requests fill the kernel buffers and the 64 KB static part of the proxy's
+    outbound buffer, then more than iovMax = 1024 small requests queue behind them (one buffer segment each); the node
+    catches up while the client sends more."""
+    req = lambda args, sl=("A",): {"k": "cmd", "slots": list(sl), "args": list(args), "dups": [-1] * len(sl)}
+    step = lambda stim, settle=True: {"stim": stim, "settle": settle, "noIter": False}
+    steps = [step([_st(op="npause", n="n1")]),
+             step([_st(op="send", c="c1", reqs=[req(["SET", "@0", "rnd:30000:%d" % (300 + k)]) for k in range(fillers)])])]
+    for b in range(0, small, 100):
+        steps.append(step([_st(op="send", c="c1", reqs=[req(["SET", "@0", "v"]) for _ in range(min(100, small - b))])]))
+    for r in range(4):
+        # the node reads part of what is waiting and, in the same iteration, the client sends more
+        steps.append(step([_st(op="nreadsome", n="n1", count=300000), _st(op="send", c="c1", reqs=[req(["GET", "@0"]), req(["GET", "@0"])])],
+                          settle=False))
+        # ... and reads more just before the write signal for those requests is served
+        steps.append(step([_st(op="nreadsome", n="n1", count=200000)], settle=False))
+        steps.append(step([_st(op="nreadsome", n="n1", count=100000), _st(op="send", c="c1", reqs=[req(["GET", "@0"])])], settle=False))
+    steps.append(step([_st(op="nresume", n="n1")]))
+    for _ in range(3):
+        steps.append(step([_st(op="answer", n="n1", kind="ok", count=fillers + small + 10)]))
+    return {"id": sid, "role": "", "steps": steps}
+
+
 BP_CFG = {"masters": 3, "mode": "step", "rawLog": True, "smallBuf": True}
+BP_CFG_MID = {"masters": 3, "mode": "step", "rawLog": True, "sockBuf": 65536}
 
 
 def backpressure_scenarios(quick):
